@@ -284,11 +284,12 @@ Definition check_M (cr : pcall * pres) : bool :=
       list_eqb (map fst res) (sort_z (map fst rm)) &&
       forallb (fun p => match find (fun q => fst q =? fst p) rm with
                         | Some q => mem (snd p) (snd q) | None => false end) res
-  | XSample n k _, RList res => if (k <? 0) || (n <? 0) then false else sample_possible n k res
+  | XSample n k _, RList res => if k <? 0 then false else if n <? 0 then (match res with [] => true | _ => false end)
+                                else sample_possible n k res
   | XSampleSlice a k _, RList res => if k <? 0 then false else sample_items_possible a k res
   | XSampleIterator a k _, RList res => if k <? 0 then false else sample_items_possible a k res
   | XShuffle a _, RList res => list_eqb (sort_z res) (sort_z a)
-  | XSample n k _, RPanic => (k <? 0) || (n <? 0)
+  | XSample n k _, RPanic => k <? 0             (* n < 0: the empty range, no panic (fix 2ff431c) *)
   | XSampleSlice _ k _, RPanic | XSampleIterator _ k _, RPanic => k <? 0
   | _, _ => pres_eqb (eval_call c) r
   end.
